@@ -26,6 +26,33 @@ pub fn weights_exact(s: &Snap) -> bool {
     coarse || fine
 }
 
+/// single-source distances on a min-weight adjacency (O(n^2) label setting; for graphs too large for the
+/// all-pairs table)
+pub fn sssp(adj: &[Vec<(usize, f64)>], src: usize) -> Vec<f64> {
+    let n = adj.len();
+    let mut d = vec![INF; n];
+    let mut done = vec![false; n];
+    d[src] = 0.0;
+    loop {
+        let mut u = usize::MAX;
+        for i in 0..n {
+            if !done[i] && d[i] < INF && (u == usize::MAX || d[i] < d[u]) {
+                u = i;
+            }
+        }
+        if u == usize::MAX {
+            break;
+        }
+        done[u] = true;
+        for &(v, w) in &adj[u] {
+            if v != u && d[u] + w < d[v] {
+                d[v] = d[u] + w;
+            }
+        }
+    }
+    d
+}
+
 impl DistOracle {
     pub fn new(s: &Snap, hop: bool) -> DistOracle {
         let n = s.n();
